@@ -37,9 +37,21 @@ func mergeBuilderInto(fromBuilder ast.Builder, intoBuilder ast.Builder, underPat
 		renameOptions = map[string]string{}
 	}
 
-	// copy factories
+	// copy factories: they call the options by name, and have to call the copies
 	for _, factory := range fromBuilder.Factories {
-		newBuilder.Factories = append(newBuilder.Factories, factory.DeepCopy())
+		newFactory := factory.DeepCopy()
+
+		for i, call := range newFactory.OptionCalls {
+			if tools.ItemInList(call.Name, excludeOptions) {
+				return ast.Builder{}, fmt.Errorf("factory '%s' of %s.%s calls the option '%s', which is excluded from the merge", factory.Name, fromBuilder.Package, fromBuilder.Name, call.Name)
+			}
+
+			if as, found := renameOptions[call.Name]; found {
+				newFactory.OptionCalls[i].Name = as
+			}
+		}
+
+		newBuilder.Factories = append(newBuilder.Factories, newFactory)
 	}
 
 	// keep constant assignments
